@@ -113,14 +113,10 @@ func firstDiff(a, b string) string {
 }
 
 // weakProjection: what the spec alone determines (used when an interference fault really changed the world).
+// Claims are not part of it: which ordinals ever had a pod created by the controller - and therefore a claim -
+// depends on the history, and an interference (somebody really deleted an orphan the twin adopted) changes it.
 func weakProjection(s *Sys) string {
-	p := project(s)
-	var claims []string
-	for _, c := range s.C.PVCs() {
-		claims = append(claims, c.Name)
-	}
-	sort.Strings(claims)
-	return fmt.Sprintf("%v claims=%v", p, claims)
+	return fmt.Sprintf("%v", project(s))
 }
 
 func fullProjection(s *Sys) string {
